@@ -110,7 +110,11 @@ class State:
 
     def fork(self):
         s = State.__new__(State)
-        s.env = dict(self.env)
+        # mutable Python containers (lists / dicts built by the code under verification) are copied, with aliasing inside the
+        # state preserved: a list appended to on one path must not change on its sibling paths
+        memo = {}
+        s.env = {k: _cp(v, memo) for k, v in self.env.items()}
+        s._memo = memo
         s.heap = dict(self.heap)
         s.pc = list(self.pc)
         s.qfacts = list(self.qfacts)
@@ -119,7 +123,8 @@ class State:
         s.exc = self.exc
         s.trace = list(self.trace)
         s.ghost = dict(self.ghost)
-        s.objs = {k: dict(v) for k, v in self.objs.items()}
+        s.objs = {k: {a: _cp(x, memo) for a, x in v.items()} for k, v in self.objs.items()}
+        del s._memo
         s.bufs = dict(self.bufs)
         return s
 
@@ -130,6 +135,26 @@ class State:
             if not z3.is_true(g):
                 self.pc.append(g)
         self.qfacts.extend(q)
+
+
+def _cp(v, memo):
+    t = type(v)
+    if t is list:
+        r = memo.get(id(v))
+        if r is None:
+            r = []
+            memo[id(v)] = r
+            r.extend(_cp(x, memo) for x in v)
+        return r
+    if t is dict:
+        r = memo.get(id(v))
+        if r is None:
+            r = {}
+            memo[id(v)] = r
+            for k, x in v.items():
+                r[k] = _cp(x, memo)
+        return r
+    return v
 
 
 class Obligation:
